@@ -104,7 +104,8 @@ def check_multiclient_cfg(cfg: Optional[MultiClientPortCfg],
                                   f' "{enum_instance.fqn}" return type')
 
     # lookup the event that matches the configured release event name
-    matched_release_events = [e for e in itf.events.elements if e.name == cfg.release_event_name]
+    matched_release_events = [e for e in itf.events.elements if e.name == cfg.release_event_name
+                              and e.direction == EventDirection.IN]
     if not matched_release_events:
         raise MultiClientCfgError(f'Release event name "{cfg.release_event_name}" not found')
     found_release_event = matched_release_events[0]
